@@ -384,7 +384,7 @@ def write_description(ws, desc, filename="build.llbuild"):
                 for k, v in c["env"].items():
                     L.append("      %s: %s" % (yq(k), yq(v)))
             for flag in ("allow-missing-inputs", "allow-modified-outputs", "always-out-of-date", "inherit-env",
-                         "can-safely-interrupt"):
+                         "can-safely-interrupt", "control-enabled"):
                 if flag in c:
                     L.append("    %s: %s" % (flag, "true" if c[flag] else "false"))
             if c.get("signature") is not None:
